@@ -40,6 +40,7 @@ PATTERNS = {
     'other.is_Function and other.func == tri and (other.args[0] == t)': 'tri',
 }
 # branches that are recognised but deliberately outside the modelled class
+TOVERLIN_TEST = 'other.is_Mul and len(other.args) == 2 and (other.args[0] == t) and other.args[1].is_Pow and (other.args[1].args[1] == -1)'
 TRAP_TEST = 'other.is_Function and other.func == trap and (other.args[0] == t)'
 OUTSIDE = ['False and other == exp(t)', 'func == tanh', 'other.args[0] == t and other.args[1].is_Pow',
            'len(other.args) == 2 and (other.args[0] == t) and other.args[1].is_Function']
@@ -245,7 +246,7 @@ def parse_table(repo):
             for fn in node.body:
                 if isinstance(fn, ast.FunctionDef) and fn.name == 'term':
                     term_fn = fn
-    info = {'entries': [], 'unparsed': [], 'outside': [], 'trap_alpha_pow': None, 'trap_zero_is_rect': False, 'expu_uses_sf': None, 'cpole_uses_sf': None, 'cpole_three_way': False, 'fingerprints': {}}
+    info = {'entries': [], 'unparsed': [], 'outside': [], 't_over_linear_delegates': False, 'trap_alpha_pow': None, 'trap_zero_is_rect': False, 'expu_uses_sf': None, 'cpole_uses_sf': None, 'cpole_three_way': False, 'fingerprints': {}}
     if term_fn is None:
         info['unparsed'].append('FourierTransformer.term not found')
         return info
@@ -331,6 +332,15 @@ def parse_table(repo):
                 info['unparsed'].append('trap entry: %s' % e)
             except Exception as e:   # noqa
                 info['unparsed'].append('trap entry: %s: %s' % (type(e).__name__, e))
+        elif test.startswith(TOVERLIN_TEST):
+            # t / (c1 t + c0): delegated to the constant and the 1/(c1 t + c0) branches (after fix C12-F12j)
+            rets = [ast.unparse(x.value) for x in br.body if isinstance(x, ast.Return)]
+            asg = [ast.unparse(x) for x in br.body if isinstance(x, ast.Assign)]
+            info['t_over_linear_delegates'] = (rets == ['const1 * (self.term(1 / c1, t, f) - c0 / c1 * self.term(1 / foo, t, f))']
+                                               and 'c0 = foo.coeff(t, 0)' in asg and 'c1 = foo.coeff(t, 1)' in asg
+                                               and 'foo = other.args[1].args[0]' in asg)
+            if not info['t_over_linear_delegates']:
+                info['unparsed'].append('t/(c1 t + c0) entry: body not recognised')
         elif any(m in test for m in OUTSIDE):
             info['outside'].append(test[:70])
         else:
@@ -522,6 +532,8 @@ def generate(repo):
     L.append('def trapAlphaPow : Option Int := %s' % ('none' if info.get('trap_alpha_pow') is None else 'some (%d)' % info['trap_alpha_pow']))
     L.append('/-- … and has the special case `alpha == 0` ↦ sincn (rect) -/')
     L.append('def trapZeroIsRect : Bool := %s' % ('true' if info.get('trap_zero_is_rect') else 'false'))
+    L.append('/-- the `t/(c1 t + c0)` branch returns `term(1/c1) - c0/c1·term(1/(c1 t + c0))` (delegates to the constant and pole branches) -/')
+    L.append('def tOverLinearDelegates : Bool := %s' % ('true' if info.get('t_over_linear_delegates') else 'false'))
     sim = info.get('similarity')
     shp = info.get('shift_phase')
     L.append('/-- `result = self.term(expr2, t, f * scale^se) / abs(scale)^re`: (se, re); the similarity theorem is (-1, 1) -/')
